@@ -46,6 +46,10 @@ pub enum Take {
     Graph { members: Vec<usize> },
     /// scc() output of a container holding all nodes
     Scc,
+    /// scc() is called on a container holding only the listed nodes (members may have neighbours
+    /// outside it: no partition is promised then, but nothing may be leaked or released either);
+    /// whatever it returns is held
+    SccPart { members: Vec<usize> },
     /// handle taken from a container's to_vec()
     ToVec { members: Vec<usize> },
     /// a container of all nodes is serialised and deserialised; the copy is held
@@ -186,7 +190,7 @@ fn asked_for(t: &Take, n: usize) -> BTreeSet<usize> {
         Take::RejectedInsert { u } => {
             k.insert(*u);
         }
-        Take::PathApi { .. } | Take::EdgeCmp { .. } => {}
+        Take::PathApi { .. } | Take::EdgeCmp { .. } | Take::SccPart { .. } => {}
     }
     k
 }
@@ -252,6 +256,20 @@ fn take<F: Flavour>(w: &World<F>, t: &Take) -> Option<Slot<F>> {
                 F::g_insert(&mut g, x.clone());
             }
             F::g_scc(&g).map(|c| Slot::Nodes(c.into_iter().flatten().collect()))
+        }
+        Take::SccPart { members } => {
+            let mut g = F::g_new();
+            for k in members {
+                if ok(*k) {
+                    F::g_insert(&mut g, w.nodes[*k].clone());
+                }
+            }
+            // (what scc() answers for a container that is not closed under neighbours is nobody's
+            // promise - not even that it answers: only the reference counts are judged)
+            match crate::locks::caught(|| F::g_scc(&g)) {
+                crate::locks::Caught::Ok(Some(c)) => Some(Slot::Nodes(c.into_iter().flatten().collect())),
+                _ => None,
+            }
         }
         Take::RoundTrip { cbor } => {
             let mut g = F::g_new();
@@ -588,7 +606,9 @@ impl Engine for Lifetime {
                 8 => Take::Order { root: u, post: rng.coin(), edges: rng.coin(), transpose: directed && rng.chance(1, 3) },
                 9 => Take::Graph { members: subset(rng) },
                 10 => {
-                    if directed {
+                    if directed && rng.chance(1, 3) {
+                        Take::SccPart { members: subset(rng) }
+                    } else if directed {
                         Take::Scc
                     } else {
                         Take::ToVec { members: subset(rng) }
